@@ -1,46 +1,46 @@
 (* OpsCodec.v — protocol ops for the consensus codec: dec / decs / enc / rt over a table of types. *)
-From MRS Require Import Model.Base Model.Varint Model.Codec Model.Show.
+From MRS Require Import Model.Base Model.Varint Model.Codec Model.CodecLen Model.Show.
 From Coq Require Import String Ascii.
 Open Scope string_scope.
 
 Inductive anyty :=
-| AnyTy {A} (d : sizes -> dec A) (e : A -> bytes) (sh : A -> toks) (p : ptok A).
+| AnyTy {A} (d : sizes -> dec A) (e : A -> bytes) (sh : A -> toks) (p : ptok A) (rl : A -> N).
 
 Definition sh_bytes1 (b : bytes) : toks := [show_hex b].
 
 Definition lookup_ty (T : string) : option anyty :=
   let is s := String.eqb T s in
-  if is "varint" then Some (AnyTy (fun _ => dec_varint) enc_varint sh_N p_N)
-  else if is "u8" then Some (AnyTy (fun _ => dec_u8) enc_u8 sh_N p_N)
-  else if is "u32" then Some (AnyTy (fun _ => dec_u32) (enc_uint 4) sh_N p_N)
-  else if is "hash" then Some (AnyTy (fun _ => dec_hash) enc_arr sh_b p_b)
-  else if is "hash8" then Some (AnyTy (fun _ => dec_hash8) enc_arr sh_b p_b)
-  else if is "key64" then Some (AnyTy (fun _ => dec_key64) enc_arr sh_b p_b)
-  else if is "bytesvec" then Some (AnyTy (fun _ => dec_bytes_vec) enc_bytes_vec sh_b p_b)
-  else if is "txin" then Some (AnyTy (fun _ => dec_txin) enc_txin sh_txin p_txin)
-  else if is "target" then Some (AnyTy (fun _ => dec_target) enc_target sh_target p_target)
-  else if is "txout" then Some (AnyTy (fun _ => dec_txout) enc_txout sh_txout p_txout)
-  else if is "prefix" then Some (AnyTy dec_prefix enc_prefix sh_prefix p_prefix)
-  else if is "signature" then Some (AnyTy (fun _ => dec_signature) enc_signature sh_signature p_signature)
+  if is "varint" then Some (AnyTy (fun _ => dec_varint) enc_varint sh_N p_N rl_varint)
+  else if is "u8" then Some (AnyTy (fun _ => dec_u8) enc_u8 sh_N p_N rl_u8)
+  else if is "u32" then Some (AnyTy (fun _ => dec_u32) (enc_uint 4) sh_N p_N rl_u32)
+  else if is "hash" then Some (AnyTy (fun _ => dec_hash) enc_arr sh_b p_b rl_arr)
+  else if is "hash8" then Some (AnyTy (fun _ => dec_hash8) enc_arr sh_b p_b rl_arr)
+  else if is "key64" then Some (AnyTy (fun _ => dec_key64) enc_arr sh_b p_b rl_arr)
+  else if is "bytesvec" then Some (AnyTy (fun _ => dec_bytes_vec) enc_bytes_vec sh_b p_b rl_bytes_vec)
+  else if is "txin" then Some (AnyTy (fun _ => dec_txin) enc_txin sh_txin p_txin rl_txin)
+  else if is "target" then Some (AnyTy (fun _ => dec_target) enc_target sh_target p_target rl_target)
+  else if is "txout" then Some (AnyTy (fun _ => dec_txout) enc_txout sh_txout p_txout rl_txout)
+  else if is "prefix" then Some (AnyTy dec_prefix enc_prefix sh_prefix p_prefix rl_prefix)
+  else if is "signature" then Some (AnyTy (fun _ => dec_signature) enc_signature sh_signature p_signature rl_signature)
   else if is "rcttype" then Some (AnyTy (fun _ => dec_rct_type) enc_rct_type
-                                        (fun t => sh_N (rct_type_tag t)) p_rct_type)
-  else if is "borosig" then Some (AnyTy (fun _ => dec_borosig) enc_borosig sh_borosig p_borosig)
-  else if is "rangesig" then Some (AnyTy (fun _ => dec_rangesig) enc_rangesig sh_rangesig p_rangesig)
-  else if is "bulletproof" then Some (AnyTy (fun _ => dec_bulletproof) enc_bulletproof sh_bulletproof p_bulletproof)
-  else if is "bpplus" then Some (AnyTy (fun _ => dec_bpplus) enc_bpplus sh_bpplus p_bpplus)
-  else if is "tx" then Some (AnyTy dec_tx enc_tx sh_tx p_tx)
-  else if is "header" then Some (AnyTy (fun _ => dec_header) enc_header sh_header p_header)
-  else if is "block" then Some (AnyTy dec_block enc_block sh_block p_block)
+                                        (fun t => sh_N (rct_type_tag t)) p_rct_type rl_rct_type)
+  else if is "borosig" then Some (AnyTy (fun _ => dec_borosig) enc_borosig sh_borosig p_borosig rl_borosig)
+  else if is "rangesig" then Some (AnyTy (fun _ => dec_rangesig) enc_rangesig sh_rangesig p_rangesig rl_rangesig)
+  else if is "bulletproof" then Some (AnyTy (fun _ => dec_bulletproof) enc_bulletproof sh_bulletproof p_bulletproof rl_bulletproof)
+  else if is "bpplus" then Some (AnyTy (fun _ => dec_bpplus) enc_bpplus sh_bpplus p_bpplus rl_bpplus)
+  else if is "tx" then Some (AnyTy dec_tx enc_tx sh_tx p_tx rl_tx)
+  else if is "header" then Some (AnyTy (fun _ => dec_header) enc_header sh_header p_header rl_header)
+  else if is "block" then Some (AnyTy dec_block enc_block sh_block p_block rl_block)
   else if is "vec_txin" then Some (AnyTy (fun sz => dec_vec (sz_txin sz) dec_txin) (enc_vec enc_txin)
-                                         (sh_list sh_txin) (p_list p_txin))
+                                         (sh_list sh_txin) (p_list p_txin) (rl_vec rl_txin))
   else if is "vec_txout" then Some (AnyTy (fun sz => dec_vec (sz_txout sz) dec_txout) (enc_vec enc_txout)
-                                          (sh_list sh_txout) (p_list p_txout))
+                                          (sh_list sh_txout) (p_list p_txout) (rl_vec rl_txout))
   else if is "vec_varint" then Some (AnyTy (fun _ => dec_vec 8 dec_varint) (enc_vec enc_varint)
-                                           (sh_list sh_N) (p_list p_N))
+                                           (sh_list sh_N) (p_list p_N) (rl_vec rl_varint))
   else if is "vec_hash" then Some (AnyTy (fun _ => dec_vec 32 dec_hash) (enc_vec enc_arr)
-                                         (sh_list sh_b) (p_list p_b))
+                                         (sh_list sh_b) (p_list p_b) (rl_vec rl_arr))
   else if is "vec_bulletproof" then Some (AnyTy (fun sz => dec_vec (sz_bulletproof sz) dec_bulletproof)
-                                                (enc_vec enc_bulletproof) (sh_list sh_bulletproof) (p_list p_bulletproof))
+                                                (enc_vec enc_bulletproof) (sh_list sh_bulletproof) (p_list p_bulletproof) (rl_vec rl_bulletproof))
   else None.
 
 (* optional leading "@a,b,c,d,e" = the size_of table reported by the harness *)
@@ -75,7 +75,7 @@ Definition ops_codec (op : string) (args0 : list string) : option string :=
     match args with
     | [T; h] =>
         match lookup_ty T, parse_hex h with
-        | Some (AnyTy d e sh p), Some b =>
+        | Some (AnyTy d e sh p rl), Some b =>
             Some (match d sz b with
                   | (Ok a, r) => join_sp ("OK" :: show_N (lenN b - lenN r) :: sh a)
                   | (Err _, _) => "ERR" | (Panic, _) => "PANIC" end)
@@ -86,7 +86,7 @@ Definition ops_codec (op : string) (args0 : list string) : option string :=
     match args with
     | [T; h] =>
         match lookup_ty T, parse_hex h with
-        | Some (AnyTy d e sh p), Some b =>
+        | Some (AnyTy d e sh p rl), Some b =>
             Some (match d sz b with
                   | (Ok a, r) => join_sp ["OK"; show_N (lenN b - lenN r); show_hex (e a)]
                   | (Err _, _) => "ERR" | (Panic, _) => "PANIC" end)
@@ -96,7 +96,7 @@ Definition ops_codec (op : string) (args0 : list string) : option string :=
     match args with
     | [T; h] =>
         match lookup_ty T, parse_hex h with
-        | Some (AnyTy d e sh p), Some b =>
+        | Some (AnyTy d e sh p rl), Some b =>
             Some (match deserialize (d sz) b with
                   | Ok a => join_sp ("OK" :: sh a) | Err _ => "ERR" | Panic => "PANIC" end)
         | _, _ => None end
@@ -105,9 +105,9 @@ Definition ops_codec (op : string) (args0 : list string) : option string :=
     match args with
     | T :: ts =>
         match lookup_ty T with
-        | Some (AnyTy d e sh p) =>
+        | Some (AnyTy d e sh p rl) =>
             match p_all p ts with
-            | Some a => Some ("OK " ++ show_hex (e a) ++ " " ++ show_N (lenN (e a)))
+            | Some a => Some ("OK " ++ show_hex (e a) ++ " " ++ show_N (rl a))
             | None => None end
         | None => None end
     | _ => None end
@@ -116,7 +116,7 @@ Definition ops_codec (op : string) (args0 : list string) : option string :=
     match args with
     | T :: ts =>
         match lookup_ty T with
-        | Some (AnyTy d e sh p) =>
+        | Some (AnyTy d e sh p rl) =>
             match p_all p ts with
             | Some a =>
                 let bs := e a in
@@ -127,7 +127,7 @@ Definition ops_codec (op : string) (args0 : list string) : option string :=
                               | Ok a' => bit (toks_eqb (sh a') (sh a)) | Err _ => "ERR" | Panic => "PANIC" end in
                 let trailing := match deserialize (d sz) (List.app bs [x00]) with
                                 | Ok _ => "ACCEPTED" | Err _ => "ERR" | Panic => "PANIC" end in
-                Some (join_sp ["OK"; show_hex bs; show_N (lenN bs); back; strict; trailing])
+                Some (join_sp ["OK"; show_hex bs; show_N (rl a); back; strict; trailing])
             | None => None end
         | None => None end
     | _ => None end
